@@ -460,14 +460,14 @@ fn law_sweep(sink: &mut Sink) {
             }
         }
         if !ch.is_uppercase() && l != vec![ch] {
-            bad.entry("is_uppercase() false but to_lowercase() differs").or_default().push(c);
+            bad.entry("informational: is_uppercase() false but to_lowercase() differs (title-case letters)").or_default().push(c);
         }
     }
     sink.tag_n("oracle_law_sweep_scalar_values", n);
     let id = sink.case_rust_only(json!({"kind": "law-sweep", "scalar_values": n}), true);
     for (k, v) in &bad {
         let show: Vec<String> = v.iter().take(40).map(|c| format!("U+{:04X}", c)).collect();
-        sink.extra(&format!("oracle_law_exceptions: {}", k), json!(show));
+        sink.extra(&format!("oracle_sweep: {}", k), json!(show));
         if k.starts_with("law_") {
             sink.fail(id, &format!("oracle law violated for {} scalar values: {}: {}", v.len(), k, show.join(" ")), "");
         }
@@ -720,6 +720,93 @@ fn yomi_case(sink: &mut Sink, d: &JapaneseDictionary, y: &YomiCfg, text: &str, v
     }
 }
 
+// ------------------------------------------------------------------ the three plugins in a row
+/// Default -> ProlongedSoundMark -> IgnoreYomigana on one buffer (the order of the shipped configuration): the text is the
+/// composition of the three specified functions and nothing else changes.  Implementation-only check.
+fn chain_dict(env: &mut Env, t: &Table, rng: &mut Rng) -> Option<(JapaneseDictionary, YomiCfg)> {
+    let path = env.file("rewrite", &render_table(t, rng));
+    let y = gen_yomi(rng, true);
+    let cd = env.file("char", &y.chardef);
+    let cfg = json!({
+        "path": env.dir.to_string_lossy(), "characterDefinitionFile": cd,
+        "inputTextPlugin": [
+            {"class": "com.worksap.nlp.sudachi.DefaultInputTextPlugin", "rewriteDef": path},
+            {"class": "com.worksap.nlp.sudachi.ProlongedSoundMarkPlugin", "prolongedSoundMarks": ["ー", "〜", "〰"], "replacementSymbol": "ー"},
+            {"class": "com.worksap.nlp.sudachi.IgnoreYomiganaPlugin", "leftBrackets": ["(", "（"], "rightBrackets": [")", "）"], "maxYomiganaLength": 4}],
+        "oovProviderPlugin": [{"class": "com.worksap.nlp.sudachi.SimpleOovPlugin",
+            "oovPOS": ["名詞", "普通名詞", "一般", "*", "*", "*"], "leftId": 8, "rightId": 8, "cost": 6000}],
+    });
+    let cfg = ConfigBuilder::from_bytes(cfg.to_string().as_bytes()).unwrap().build();
+    JapaneseDictionary::from_cfg_storage(&cfg, SudachiDicData::new(Storage::Owned(env.sys.clone()))).ok().map(|d| (d, y))
+}
+
+fn chain_case(sink: &mut Sink, d: &JapaneseDictionary, y: &YomiCfg, t: &Table, text: &str, verbose: bool) {
+    let marks = vec!['ー', '〜', '〰'];
+    let got = catch(|| {
+        let mut buf = InputBuffer::from(text);
+        for p in d.input_text_plugins() {
+            p.rewrite(&mut buf).map_err(|e| format!("{:?}", e))?;
+        }
+        let cur = buf.current().to_string();
+        // the offset map stays monotone and anchored through the three batches
+        let offs: Vec<usize> = cur.char_indices().map(|(b, _)| buf.get_original_index(b)).chain(std::iter::once(buf.get_original_index(cur.len()))).collect();
+        Ok::<_, String>((cur, offs))
+    });
+    let want = yomi_oracle(y, &psm_oracle(&marks, "ー", &spec_normalize(&t.pairs, &t.ign, text)));
+    if verbose {
+        println!("implementation: {:?}\nspecification : {:?}", got, want);
+    }
+    let id = sink.case_rust_only(json!({"kind": "chain", "text": text, "table": t.pairs, "exempt": t.ign.iter().map(|c| c.to_string()).collect::<Vec<_>>()}), want != text);
+    sink.tag("chain_of_three_plugins");
+    match got {
+        Ok(Ok((cur, offs))) => {
+            if cur != want {
+                sink.fail(id, &format!("three plugins in a row on {:?} (table {:?}): implementation {:?}, composition of the specifications {:?}", text, t.pairs, cur, want), "");
+            } else if offs.windows(2).any(|w| w[0] > w[1]) || offs.first() != Some(&0) || offs.last() != Some(&text.len()) {
+                sink.fail(id, &format!("three plugins in a row on {:?}: offset map {:?} is not monotone from 0 to {}", text, offs, text.len()), "");
+            }
+        }
+        other => sink.fail(id, &format!("three plugins in a row on {:?}: {:?}", text, other), ""),
+    }
+}
+
+fn chain_stream(sink: &mut Sink, env: &mut Env, rng: &mut Rng, ncfg: usize, per: usize) {
+    for _ in 0..ncfg {
+        let t = gen_table(rng);
+        let Some((d, y)) = chain_dict(env, &t, rng) else { continue };
+        for _ in 0..per {
+            let mut text = gen_text(rng, &t, false);
+            for _ in 0..rng.below(4) {
+                match rng.below(3) {
+                    0 => text.push_str("徳（とク）"),
+                    1 => text.push_str("ーー〜"),
+                    _ => text.push_str("島(ｶﾞ)"),
+                }
+                text.push(*rng.pick(ALPHA));
+            }
+            chain_case(sink, &d, &y, &t, &text, false);
+        }
+    }
+}
+
+// ------------------------------------------------------------------ malformed stream
+/// table_wf (distinct, non-empty keys) is what read_rewrite_lists guarantees: tables violating it must be rejected
+fn malformed(sink: &mut Sink, env: &mut Env) {
+    let bads = ["a x\na y\n", "ab x\nc d\nab x\n", "a b c\n", "ab\n", "a\tx\ty\n", "Ⅲ\nａｂ\n"];
+    let mut rejected = 0u64;
+    for b in bads {
+        let path = env.file("rewrite", b);
+        match env.dict(&env.chardef.clone(), json!({"class": "com.worksap.nlp.sudachi.DefaultInputTextPlugin", "rewriteDef": path})) {
+            Err(e) if !e.starts_with("panic") => rejected += 1,
+            other => {
+                let id = sink.case_rust_only(json!({"kind": "default-malformed", "rewrite_def": b}), false);
+                sink.fail(id, &format!("malformed rewrite.def {:?} was not rejected: {:?}", b, other.err()), "");
+            }
+        }
+    }
+    sink.tag_n("malformed_table_rejected", rejected);
+}
+
 // ------------------------------------------------------------------ entry
 fn strs(v: &Value) -> Vec<char> {
     v.as_array().map(|a| a.iter().filter_map(|x| x.as_str().and_then(|s| s.chars().next())).collect()).unwrap_or_default()
@@ -768,6 +855,16 @@ fn replay(sink: &mut Sink, env: &mut Env, case: &Value) {
             println!("text {:?}", text);
             yomi_case(sink, &d, &y, &text, true);
         }
+        "chain" => {
+            let t = Table {
+                pairs: case["table"].as_array().map(|a| a.iter().map(|p| (p[0].as_str().unwrap().to_string(), p[1].as_str().unwrap().to_string())).collect()).unwrap_or_default(),
+                ign: strs(&case["exempt"]),
+            };
+            let mut rng = Rng::new(1);
+            let (d, y) = chain_dict(env, &t, &mut rng).unwrap();
+            println!("table {:?} exempt {:?} text {:?}", t.pairs, t.ign, text);
+            chain_case(sink, &d, &y, &t, &text, true);
+        }
         "sweep" => sweep_shipped(sink, env, 1),
         "law-sweep" => law_sweep(sink),
         k => println!("cannot replay case kind {:?}", k),
@@ -810,9 +907,11 @@ pub fn run(args: &Args) {
     directed(&mut sink, &mut env, &mut rng);
     law_sweep(&mut sink);
     sweep_shipped(&mut sink, &mut env, if args.thorough() { 1 } else { 37 });
-    default_stream(&mut sink, &mut env, &mut rng, args.n(110, 2500), 8);
-    psm_stream(&mut sink, &mut env, &mut rng, args.n(25, 400), 8);
-    yomi_stream(&mut sink, &mut env, &mut rng, args.n(25, 400), 10);
+    default_stream(&mut sink, &mut env, &mut rng, args.n(320, 4000), 8);
+    psm_stream(&mut sink, &mut env, &mut rng, args.n(70, 800), 8);
+    yomi_stream(&mut sink, &mut env, &mut rng, args.n(70, 800), 10);
+    chain_stream(&mut sink, &mut env, &mut rng, args.n(40, 600), 8);
+    malformed(&mut sink, &mut env);
     let _ = std::fs::remove_dir_all(&env.dir);
     sink.finish();
 }
